@@ -51,6 +51,10 @@ const (
 type LockModel struct {
 	Writer  uint32
 	Readers int32
+	// WPending counts writers that have called Lock on an RWMutex and not yet
+	// acquired it: as documented for sync.RWMutex, a pending writer blocks new
+	// readers (which is what makes recursive read-locking a deadlock).
+	WPending int32
 }
 
 // OnceModel is the scheduler's view of a sync.Once.
@@ -220,7 +224,7 @@ func enabled(t *thread) bool {
 		return m.Writer == 0 && m.Readers == 0
 	case opRLock:
 		m := (*LockModel)(t.obj)
-		return m.Writer == 0
+		return m.Writer == 0 && m.WPending == 0
 	case opOnce:
 		return (*OnceModel)(t.obj).Running == 0
 	case opWait:
@@ -442,6 +446,18 @@ func PointLock(m *LockModel) {
 	m.Writer = 1
 }
 
+// PointWLockRW is Lock on an RWMutex: the call first announces the writer
+// (from then on new readers wait), then acquires once readers and writer are gone.
+//
+//go:norace
+func PointWLockRW(m *LockModel) {
+	point(opNone, nil)
+	m.WPending++
+	point(opLock, unsafe.Pointer(m))
+	m.WPending--
+	m.Writer = 1
+}
+
 //go:norace
 func PointRLock(m *LockModel) {
 	point(opRLock, unsafe.Pointer(m))
@@ -461,7 +477,7 @@ func TryLock(m *LockModel) bool {
 //go:norace
 func TryRLock(m *LockModel) bool {
 	point(opNone, nil)
-	if m.Writer == 0 {
+	if m.Writer == 0 && m.WPending == 0 {
 		m.Readers++
 		return true
 	}
